@@ -9,18 +9,29 @@ against the C++ run-time interface with the same parameters (op `solve`, oracle 
 against the Coq model Capi.v:
   * the system matrix built from 0-/1-based arrays (`sysmat`, Capi.build_c / build_f),
   * the tree behind a params handle after a script of setters (`params`, Capi.capi_sets = Ptree.put_path),
-  * handle life-cycle scripts (`life`, Capi.crun).
+  * handle life-cycle scripts (`life`, Capi.crun);
+call HISTORIES (props/capi_hist.py, ops `hist` / `rhist`): scripted caller programs on one or several handles with the
+caller's ptr/col/val/rhs/x buffers rewritten IN PLACE between calls (values, pattern at equal nnz, nnz, index base),
+fresh buffers, interleaved live handles of different sizes, destroy + create (allocator address reuse), params handles
+set twice / after create / destroyed before use.  The Coq model Capi2.run turns the program (with the real handle
+values) into its contents trace; the C++ run-time interface replays that trace by value (persistent objects, and a
+fresh object per call); every call of the history must agree bit for bit.
 """
 import random, re
 from fractions import Fraction as F
 from vcheck import fmt_q, fmt_crs
 from props.common import diff_run, account
+from props import capi_hist
 
 DRIVERS = ["capi"]
 MODEL = "params"
 EXTRA_FLAGS = {"capi": ["-fsanitize=address", "-fno-omit-frame-pointer"]}
 TRUSTED_BASE = [
-    "AddressSanitizer (g++ 12) as the detector of reads outside the caller's arrays and of use-after-destroy",
+    "AddressSanitizer (g++ 12) as the detector of reads outside the caller's arrays and of use-after-destroy; manual "
+    "poisoning (ASAN_POISON_MEMORY_REGION) of the unused tail of buffers that are reused in place; LeakSanitizer "
+    "(__lsan_do_recoverable_leak_check after every history) as the detector of objects the C layer loses",
+    "the recorder instance of the abstract C++ interface in ocaml/params/ops_capi.ml (objects / steps numbered in call order) "
+    "and the interpreter `rhist` of the contents trace in harness/drv_capi.cpp",
     "extraction directive ExtrOcamlNativeString (Coq string -> OCaml string)",
     "boost::property_tree stream translators (int/float -> text) and JSON parser: values are canonical texts",
 ]
@@ -110,6 +121,8 @@ def cases(tier, seed):
             else:
                 s = r.choice(sorted(live)); ops.append("d %s %d" % (live.pop(s), s))
         add("life", " ".join([str(len(ops))] + ops))
+    # ---- hist: call histories (own ids: they carry tier and seed)
+    out += capi_hist.cases(tier, seed)
     return out
 
 
@@ -128,6 +141,11 @@ def run(ctx, cases_override=None):
                         "life": "C20_A2: handle life cycle = Capi.crun"}.get(x["op"], x["theorem"])
     fails += f
     # C API vs C++ run-time interface
+    hl = [l for l in lines if l.split(" ", 2)[1] == "hist"]
+    if hl:
+        hf, info = capi_hist.run(ctx, hl, env)
+        fails += hf
+        ctx["log"].append(("hist: %(histories)d histories, %(calls)d calls compared, %(addr_reuse)d handle addresses reused" % info, 0))
     sl = [l for l in lines if l.split(" ", 2)[1] == "solve"]
     out = ctx["run_driver"](ctx["cpp"]["capi"], sl, env_extra=env, shards=12, timeout=600)
     account(ctx, sl, out, nontrivial=lambda op, pin, o: bool(o) and " it=" in o)
